@@ -1,0 +1,7 @@
+//go:build !verif
+
+package server
+
+// verifPoint is a hook of the verification harness; without the build tag
+// "verif" it does nothing.
+func verifPoint(point string, zns *ZnPMServer, arg int) {}
